@@ -226,6 +226,8 @@ def run_unit(unit, progress):
         # ---- asyncio run
         rt = harness.HarnessRT(prog, seed=cs)
         rt.track_running = False
+        # in one program in three the hand-written asyncio twins hand back an asyncio.Task instead of a coroutine
+        rt.explicit_returns_task = i % 3 == 0
         modes = []
         probe_results = []
 
@@ -300,6 +302,7 @@ def run_unit(unit, progress):
         for v in rt.violations[:2]:
             viol.append((v["oracle"], v["detail"]))
         inc("exception_deliveries_under_asyncio", getattr(rt, "n_exc_resumes", 0))
+        inc("asyncio_fn_calls_that_returned_a_Task_object", getattr(rt, "n_explicit_tasks", 0))
         inc("raises_of_a_cached_error_object", getattr(rt, "n_cached_raises", 0))
         feats = lang.prog_features(prog)
         # yields with >= 2 failing awaitables (from the reference)
